@@ -28,6 +28,22 @@ theorem findIndices_spec (q t : Annotation) (i : Nat) :
       annEq (sliceAt (sliceAt t i q.seq.length) 0 q.seq.length) q = true :=
   mem_findIndices q t i
 
+/-- the same in the form of DESIGN.md §C16 (`slice t i (i+|q|) ≈ q`): for a non-empty query the second slice is the
+identity (`sliceAt_idem`), so offset `i` is returned iff the residues occur at `i` and the slice of the target at that
+stretch `==` the query. -/
+theorem findIndices_spec_slice (q t : Annotation) (hq : 0 < q.seq.length) (i : Nat) :
+    i ∈ findIndices q t ↔
+      i + q.seq.length ≤ t.seq.length ∧ (t.seq.drop i).take q.seq.length = q.seq ∧
+      annEq (sliceAt t i q.seq.length) q = true := by
+  rw [findIndices_spec]
+  constructor
+  · rintro ⟨h1, h2, h3⟩
+    rw [sliceAt_idem t i _ hq h1] at h3
+    exact ⟨h1, h2, h3⟩
+  · rintro ⟨h1, h2, h3⟩
+    rw [← sliceAt_idem t i _ hq h1] at h3
+    exact ⟨h1, h2, h3⟩
+
 /-- the offsets are strictly increasing: no duplicates, and together with `findIndices_spec` every occurrence —
 overlapping or not — is present exactly once -/
 theorem findIndices_increasing (q t : Annotation) : (findIndices q t).Pairwise (· < ·) :=
